@@ -12,3 +12,5 @@ LEVEL_TEXT = "Deductive proof of cutplace's share (dispatch, non-interference by
 LEVEL_NOTE = "Trusts the readers' dependency axioms (audited elsewhere), the pyvc encoding, z3/cvc5."
 TECHNIQUE = "contract-based deductive verification (format-symbolic proof = self-composition for free) + structural scan + bounded storage sweep"
 UNITS = [OD.unit_ods_rows().also("C17"), XL.unit_excel_rows().also("C17"), RDL.unit_delimited_rows().also("C17"), STO.unit_attribute_existence(), STO.unit_auto_rows(), VIO.unit_raw_rows(), F.unit_validated(), IF.unit_cid_read(), D.unit_dataformat_init(), STO.unit_storage_sweep()]
+from contracts import fieldtypes as FT
+UNITS += [FT.unit_decimal_init().also("C17"), FT.unit_integer_init().also("C17"), FT.unit_datetime_regex_pattern().also("C17"), IF.unit_cid_init()]
